@@ -48,7 +48,8 @@ def call_cases(draw, tier):
     return {"d": spec, "route": draw(st.sampled_from(["ctor", "whisker"])),
             "short": draw(st.booleans()),
             "vals": draw(st.lists(st.sampled_from(
-                ["x", "x", "x", None, 0, 2.5]), min_size=4, max_size=4))}
+                ["x", "x", "x", None, 0, 2.5, [3, 1], []]), min_size=4,
+                max_size=4))}
 
 
 def input_values(n, kinds, prefix="x"):
@@ -135,8 +136,8 @@ def naturality_cases(draw, tier):
                           min_boxes=1))
     g = draw(gen.diagrams("cartesian", max_boxes=3, max_width=4, max_dom=2,
                           min_boxes=1))
-    vals = st.lists(st.sampled_from(["x", "x", "x", None, 1]), min_size=2,
-                    max_size=2)
+    vals = st.lists(st.sampled_from(["x", "x", "x", None, 1, [2, 1]]),
+                    min_size=2, max_size=2)
     return {"f": f, "g": g, "xs": draw(vals), "ys": draw(vals)}
 
 
@@ -191,5 +192,5 @@ core.register("C19", [
     "boxes return a bare value for one output, () for none and a tuple "
     "otherwise (the library's documented convention), or a 1-tuple for one "
     "output in the library's own `lambda *xs: tuple` style; inputs are "
-    "strings, numbers or None (any value except a tuple, which the "
+    "strings, numbers, lists or None (any value except a tuple, which the "
     "tuple-or-single-value convention cannot carry on one wire)"])
